@@ -46,7 +46,7 @@ BOUNDS = {
     "quick": {"programs": "corpus/c3progs.py for x86_64 (int = 32 bit, ptr = 64 bit), 284 programs: operator matrix (4 programs "
                           "per ordered operand-type pair: 6 wrap-around operators, / %, << >>, 6 comparisons): the same-type "
                           "pairs of int/byte/int64_t/uint16_t + 28 sampled mixed-type programs; all 8 cast, 8 implicit-conversion, "
-                          "8 unary, 6 literal-operand programs (one per integer type) and 12 sampled compound-assignment programs; "
+                          "8 unary, 18 literal-operand programs (three per integer type: general, power-of-two/unit/zero operands, comparisons with in- and out-of-range literals) and 12 sampled compound-assignment programs; "
                           "all 48 short-circuit / bool programs (evaluation trace in a global), 35 control-flow, 14 call, "
                           "26 pointer/struct/array/initialiser, 27 constant / global-initialiser / literal, 18 precedence "
                           "programs; 30 seeded random programs (nesting <= 2, <= 2 loops)",
